@@ -1,0 +1,101 @@
+//go:build verif
+
+package erpc
+
+import (
+	"net"
+	"sync"
+	"sync/atomic"
+)
+
+// Verification hooks (build tag verif): observation points, schedule gates and a few accessors
+// used by the external verification harness. Nothing here changes behaviour unless a hook
+// function is installed.
+
+// VerifHooks are the callbacks a harness may install.
+type VerifHooks struct {
+	// Gate is called at named program points; it may block to force a schedule.
+	Gate func(point string, sess Session)
+	// Event is called for observable shared-state operations, under the recorder mutex.
+	Event func(kind string, sess Session, a, b int64)
+	// Dial, when non-nil, replaces the network dial of the client dialer.
+	Dial func(network, addr string) (net.Conn, error)
+}
+
+var (
+	verifHooks atomic.Value // *VerifHooks
+	verifMu    sync.Mutex
+)
+
+// VerifSetHooks installs (or with nil removes) the hooks.
+func VerifSetHooks(h *VerifHooks) {
+	if h == nil {
+		h = &VerifHooks{}
+	}
+	verifHooks.Store(h)
+}
+
+func verifGet() *VerifHooks {
+	h, _ := verifHooks.Load().(*VerifHooks)
+	return h
+}
+
+func verifGate(point string, s *session) {
+	if h := verifGet(); h != nil && h.Gate != nil {
+		h.Gate(point, s)
+	}
+}
+
+func verifEnter() {
+	if h := verifGet(); h != nil && h.Event != nil {
+		verifMu.Lock()
+	}
+}
+
+func verifLeave() {
+	if h := verifGet(); h != nil && h.Event != nil {
+		verifMu.Unlock()
+	}
+}
+
+func verifEvent(kind string, s *session, a, b int64) {
+	if h := verifGet(); h != nil && h.Event != nil {
+		h.Event(kind, s, a, b)
+	}
+}
+
+func verifDial(network, addr string) (net.Conn, error, bool) {
+	if h := verifGet(); h != nil && h.Dial != nil {
+		c, err := h.Dial(network, addr)
+		return c, err, true
+	}
+	return nil, nil, false
+}
+
+// VerifServeListener serves an arbitrary listener (the listener path of ListenAndServe).
+func VerifServeListener(p Peer, lis net.Listener, protoFunc ...ProtoFunc) error {
+	return p.(*peer).serveListener(lis, protoFunc...)
+}
+
+// VerifStatus returns the raw lifecycle status of a session.
+func VerifStatus(s Session) int32 { return s.(*session).getStatus() }
+
+// VerifPendingCalls returns the number of entries in the session's pending-call table.
+func VerifPendingCalls(s Session) int { return s.(*session).callCmdMap.Len() }
+
+// VerifSentinels returns the framework's predefined shared status values by name.
+func VerifSentinels() map[string]*Status {
+	return map[string]*Status{
+		"statConnClosed":          statConnClosed,
+		"statWriteFailed":         statWriteFailed,
+		"statDialFailed":          statDialFailed,
+		"statBadMessage":          statBadMessage,
+		"statNotFound":            statNotFound,
+		"statCodeMtypeNotAllowed": statCodeMtypeNotAllowed,
+		"statInternalServerError": statInternalServerError,
+		"statInvalidOpError":      statInvalidOpError,
+		"statUnpreparedError":     statUnpreparedError,
+		"statUnknownError":        statUnknownError,
+		"statHandleTimeout":       statHandleTimeout,
+	}
+}
